@@ -148,3 +148,8 @@ class Driver(object):
             self.p.wait(timeout=5)
         except Exception:
             self.p.kill()
+
+
+class StopStreams(Exception):
+    """raised by an observation adapter when going on is pointless (e.g. the implementation ran away on
+    several inputs already): the runner keeps what was observed so far and skips the remaining cases"""
